@@ -8,7 +8,7 @@
    The other message-level statements (other parameter kinds, constant prefix,
    required/free) are correspondence + oracle only.  Known finding: condensed bit masks (see known_findings.json). *)
 From Coq Require Import ZArith List Bool.
-From OV Require Import Base.Bytes Base.Wire Generated Model.Str Model.Codec Proofs.BytesProofs Proofs.AtomicProofs Proofs.CodecProps Proofs.FlatProofs Proofs.FlatEncodeProofs Proofs.TreeProofs Proofs.TreeWireProofs.
+From OV Require Import Base.Bytes Base.Wire Generated Model.Str Model.Codec Proofs.BytesProofs Proofs.AtomicProofs Proofs.CodecProps Proofs.FlatProofs Proofs.FlatEncodeProofs Proofs.TreeProofs Proofs.TreeWireProofs Proofs.FieldProofs Proofs.PadProofs Proofs.BStructProofs Proofs.LinearLeafProofs Proofs.ReservedProofs Proofs.StaticLenProofs.
 Import ListNotations.
 Open Scope Z_scope.
 
@@ -84,3 +84,64 @@ Theorem C08_nested_length_is_static : forall ts d,
               static_bits_msg ps = Some (8 * blen msg).
 Proof. exact tree_length_is_static. Qed.
 Print Assumptions C08_nested_length_is_static.
+
+(* ---------- messages of good members (Proofs/StaticLenProofs.v) ---------- *)
+(* sgood f x: member x has implicit positions and reports a static bit length which rounds up to the number of its
+   bytes. Leaves, LINEAR leaves, structures of such members and structures with BYTE-SIZE (whatever they contain)
+   are such; a message of such members reports 8 x the length of its encoding *)
+Theorem C08_members_static_length : forall rs F,
+  fuel_of (map m_p (rms rs)) = S F -> (forall x, In x rs -> sgood F x) ->
+  static_bits_msg (map m_p (rms rs)) = Some (8 * blen (rbytes rs)).
+Proof. exact members_static_length. Qed.
+Print Assumptions C08_members_static_length.
+
+Theorem C08_members_length_is_static : forall k rs F,
+  (forall x, In x rs -> rgood k x) -> NoDup (map m_name (rms rs)) ->
+  fuel_of (map m_p (rms rs)) = S F -> (k <= F)%nat -> (forall x, In x rs -> sgood F x) ->
+  exists pdu, encode_msg (map m_p (rms rs)) None (VDict (in_dict (rms rs))) = Ok (pdu, false) /\
+              static_bits_msg (map m_p (rms rs)) = Some (8 * blen pdu).
+Proof. exact members_length_is_static. Qed.
+Print Assumptions C08_members_length_is_static.
+
+Theorem C08_static_members : forall f,
+  (forall x vv w, canon vv x w -> 0 < f_bl x -> sgood (S f) (leaf_rm x vv w)) /\
+  (forall nm bl hl off num lo hi x, 0 < bl -> sgood (S f) (lin_rm nm bl hl off num lo hi x)) /\
+  (forall nm rs b, blen (rbytes rs) <= b -> sgood (S f) (bstruct_rm nm rs b)) /\
+  (forall nm rs, (forall x, In x rs -> sgood f x) -> sgood (S f) (struct_rm nm rs)).
+Proof.
+  intros f. split; [|split; [|split]].
+  - intros x vv w. apply leaf_sgood.
+  - intros nm bl hl off num lo hi x. apply lin_sgood.
+  - intros nm rs b. apply bstruct_sgood.
+  - intros nm rs. apply struct_sgood.
+Qed.
+Print Assumptions C08_static_members.
+
+Example C08_members_example :
+  let u8 nm := mkF nm 8 BUint None true BUint None in
+  let u16 nm := mkF nm 16 BUint None true BUint None in
+  let vv (z : Z) := fun _ : name => VInt z in
+  let inner := [leaf_rm (u8 [97]) (vv 7) (wire_bytes (u8 [97]) 7); leaf_rm (u16 [98]) (vv 258) (wire_bytes (u16 [98]) 258)] in
+  let rs := [leaf_rm (mkF [115] 8 BUint None true BUint (Some (VInt 34))) (vv 34) [34];
+             bstruct_rm [116] inner 5;
+             struct_rm [117] [lin_rm [99] 8 true (-40) 2 None None 100; leaf_rm (u16 [100]) (vv 3) (wire_bytes (u16 [100]) 3)]] in
+  static_bits_msg (map m_p (rms rs)) = Some 72 /\
+  encode_msg (map m_p (rms rs)) None (VDict (in_dict (rms rs))) = Ok ([34; 7; 1; 2; 0; 0; 100; 0; 3], false).
+Proof. exact static_len_example. Qed.
+Print Assumptions C08_members_example.
+
+Example C08_members_premises :
+  let u8 nm := mkF nm 8 BUint None true BUint None in
+  let u16 nm := mkF nm 16 BUint None true BUint None in
+  let vv (z : Z) := fun _ : name => VInt z in
+  let inner := [leaf_rm (u8 [97]) (vv 7) (wire_bytes (u8 [97]) 7); leaf_rm (u16 [98]) (vv 258) (wire_bytes (u16 [98]) 258)] in
+  let rs := [leaf_rm (mkF [115] 8 BUint None true BUint (Some (VInt 34))) (vv 34) (wire_bytes (mkF [115] 8 BUint None true BUint (Some (VInt 34))) 34);
+             bstruct_rm [116] inner 5;
+             struct_rm [117] [lin_rm [99] 8 true (-40) 2 None None 100; leaf_rm (u16 [100]) (vv 3) (wire_bytes (u16 [100]) 3)]] in
+  forall F, fuel_of (map m_p (rms rs)) = S F -> forall x, In x rs -> sgood F x.
+Proof. exact static_len_premises. Qed.
+Print Assumptions C08_members_premises.
+
+Theorem C08_reserved_is_static : forall f nm bl, 0 < bl -> sgood f (reserved_rm nm bl).
+Proof. exact reserved_sgood. Qed.
+Print Assumptions C08_reserved_is_static.
